@@ -50,6 +50,7 @@ def run(ctx):
     _keywords(ctx, index)
     _optional(ctx, index)
     _falsy(ctx, index)
+    _order_rule(ctx, index)
 
 
 # ------------------------------------------------------------------- align
@@ -285,6 +286,47 @@ def _optional(ctx, index):
     ctx.need(n_sites >= 1, "the Optional-wrapping decision vanished from parse_out_param")
 
 
+def _holds_default(f, name, defs):
+    """is local `name` (a) called exactly `default`, or (b) bound directly from a default slot?"""
+    if name == "default":
+        return True
+    for d in defs.get(name, []):
+        if _is_default_expr(d):
+            return True
+    return False
+
+
+def _order_rule(ctx, index):
+    """
+    Members of a Literal travel through `choices=(...)`: the emitter must write them in the order they
+    have in the type and the parser rebuild them in the order written — sorting / de-duplicating on one
+    side only changes the type string that comes back.
+    """
+    emit = index.func("cdd.shared.ast_utils.param2argparse_param")
+    rd = index.func("cdd.argparse_function.utils.emit_utils._handle_keyword")
+    reorder = ("sorted", "set", "frozenset", "reversed", "dict.fromkeys", "OrderedDict.fromkeys")
+    n = 0
+    for node in iter_own(emit.node):
+        if isinstance(node, ast.Call) and norm(node.func).endswith("keyword") and any(k.arg == "arg" and isinstance(k.value, ast.Constant) and k.value.value == "choices" for k in node.keywords):
+            n += 1
+            val = [k.value for k in node.keywords if k.arg == "value"][0]
+            bad = [c for c in ast.walk(val) if isinstance(c, ast.Call) and norm(c.func) in reorder]
+            ctx.ob(
+                "C02.shape",
+                emit,
+                "choices are emitted in the order of the Literal's members",
+                not bad,
+                ""
+                if not bad
+                else "the emitter passes the members through `{}` while the parser rebuilds Literal[...] in the order "
+                "written: `Literal['small', 'medium', 'large']` comes back reordered".format(norm(bad[0].func)),
+                line=node.lineno,
+            )
+    ctx.need(n >= 1, "the choices keyword vanished from param2argparse_param")
+    bad = [c for c in iter_own(rd.node) if isinstance(c, ast.Call) and norm(c.func) in reorder]
+    ctx.ob("C02.shape", rd, "choices are read back in the order written", not bad, "" if not bad else "the parser reorders the members with `{}`".format(norm(bad[0].func)), line=rd.node.lineno)
+
+
 def _is_default_expr(e):
     if (
         isinstance(e, ast.Call)
@@ -302,8 +344,16 @@ def _falsy(ctx, index):
     n = 0
     for f in index.nontest_funcs():
         par = f.mod.parents
+        defs = local_defs(f)
         for node in iter_own(f.node):
-            if not (isinstance(node, ast.expr) and _is_default_expr(node)):
+            is_slot = isinstance(node, ast.expr) and _is_default_expr(node)
+            is_local = (
+                isinstance(node, ast.Name)
+                and isinstance(node.ctx, ast.Load)
+                and node.id in f.locals | set(f.params)
+                and _holds_default(f, node.id, defs)
+            )
+            if not (is_slot or is_local):
                 continue
             n += 1
             p = par.get(node)
